@@ -162,6 +162,7 @@ type Worker struct {
 	globals      map[*ssa.Global]*Value
 	inited       map[*ssa.Package]bool
 	fnInfos      map[*ssa.Function]*fnInfo
+	built        map[*ssa.Package]bool
 	constCache   map[*ssa.Const]Value
 	initProblems []string
 	tolerant     int
@@ -210,7 +211,7 @@ func (e *Engine) newWorker() (*Worker, error) {
 	}
 	w := &Worker{E: e, T: NewTable(), S: s, fb: map[string]*Solver{},
 		globals: map[*ssa.Global]*Value{}, inited: map[*ssa.Package]bool{},
-		fnInfos: map[*ssa.Function]*fnInfo{}, constCache: map[*ssa.Const]Value{},
+		built: map[*ssa.Package]bool{}, fnInfos: map[*ssa.Function]*fnInfo{}, constCache: map[*ssa.Const]Value{},
 		funcs: map[string]string{}, assumptions: map[string]bool{}}
 	return w, nil
 }
@@ -576,7 +577,14 @@ func (w *Worker) hugeAlloc(fr *frame, n int) {
 }
 
 func (w *Worker) violation(kind, label, site string, cond *Term) {
-	m, _, ok := w.model(cond)
+	m, vals, ok := w.model(cond)
+	if ok && len(w.hashes) > 0 {
+		env := w.repairModel(vals)
+		m = map[string]string{}
+		for k, v := range env {
+			m[k] = fmt.Sprintf("0x%x", v)
+		}
+	}
 	if !ok {
 		w.E.mu.Lock()
 		w.E.res.Unknown = append(w.E.res.Unknown, fmt.Sprintf("%s %q: counterexample model unavailable", kind, label))
